@@ -313,14 +313,14 @@ fn gen_spec(rng: &mut Rng) -> Option<Spec> {
 
 fn gen_pat(rng: &mut Rng, depth: u32, in_arg: bool) -> Pat {
     match rng.below(20) {
-        0..=4 => Pat::Lit(lit_of(*rng.pick(PLAIN), rng, in_arg)),
-        5 | 6 => Pat::Lit(lit_of(*rng.pick(SPECIALS), rng, in_arg)),
-        7..=12 => {
+        0..=3 => Pat::Lit(lit_of(*rng.pick(PLAIN), rng, in_arg)),
+        4..=6 => Pat::Lit(lit_of(*rng.pick(SPECIALS), rng, in_arg)),
+        7..=11 => {
             let k = rng.below(LEAVES.len() as u64) as usize;
             let long = rng.chance(1, 2) && k != THREAD_ID;
             Pat::Leaf(k, long, gen_spec(rng))
         }
-        13 | 14 => {
+        12 | 13 => {
             let f: &str = *rng.pick(DATE_FMTS);
             let args = match rng.below(4) {
                 0 => None,
@@ -329,7 +329,7 @@ fn gen_pat(rng: &mut Rng, depth: u32, in_arg: bool) -> Pat {
             };
             Pat::Date(rng.chance(1, 2), args, gen_spec(rng))
         }
-        15 | 16 => {
+        14 | 15 => {
             let key = plain_lits(*rng.pick(KEYS));
             let d: &str = *rng.pick(&["none", "d", "n/a", "\u{4e2d}", "- -"]);
             let dflt = if rng.chance(1, 2) { Some(plain_lits(d)) } else { None };
@@ -344,7 +344,7 @@ fn gen_pat(rng: &mut Rng, depth: u32, in_arg: bool) -> Pat {
 }
 
 fn gen_pats(rng: &mut Rng, depth: u32, in_arg: bool) -> Vec<Pat> {
-    let n = rng.range(0, 5);
+    let n = if in_arg { rng.range(0, 4) } else { rng.range(1, 7) };
     (0..n).map(|_| gen_pat(rng, depth, in_arg)).collect()
 }
 
